@@ -363,6 +363,21 @@ def run(M, rep, tier, only=None):
                     sawv = True
             if not sawv:
                 bad = (paths[0], "section[key] never reads the values of a property")
+            # a subsection is returned only after the properties were consulted and did not have the key
+            for p in paths:
+                if not p.normal:
+                    continue
+                rv = p.terminal[1].t
+                prov = [rv] + [p.heap[(x, "_h5group")].t for x in subterms(rv) if x and x[0] == "inst" and (x, "_h5group") in p.heap]
+                from_props = any(y == PROPS for t_ in prov for y in subterms(t_))
+                from_secs = any(y == SECS for t_ in prov for y in subterms(t_))
+                if from_secs and not from_props:
+                    consulted = [e for k, e in grp_events(p) if k == "props"]
+                    said_yes = [v for a, v in p.decisions if a[0] == "truthy" and a[1][0] == "rd" and a[1][1] == "child" and a[1][2] == PROPS and v is True]
+                    if not consulted or said_yes:
+                        bad = (p, "section[key] returns the subsection of that name %s: lookup disagrees with assignment, deletion, "
+                               "membership and len, which go to the property first" % (
+                                   "although a property has the key" if said_yes else "without asking whether a property has the key"))
             # a key that names a property yields the property's values -- also when a subsection has the same name
             for p in paths:
                 if not p.normal:
